@@ -27,6 +27,10 @@ def call(probe, scope, ma, mb):
     pos.append(101)
   elif ma == 2:
     kw[first] = 101
+  elif ma == 3:
+    pos.append(gin.REQUIRED)       # the caller asks Gin to supply it: it IS Gin-supplied
+  elif ma == 4:
+    kw[first] = gin.REQUIRED
   if mb == 1:
     kw[second] = 202
 
@@ -58,19 +62,19 @@ def full_name(printed):
   return scope, gc._REGISTRY.get_match(sel).selector
 
 
-def c07_operative(p1: int, s1: bool, ma1: int, mb1: int, second: int, s2: bool, ma2: int, mb2: int,
+def c07_operative(nma2: int, p1: int, s1: bool, ma1: int, mb1: int, second: int, s2: bool, ma2: int, mb2: int,
                   broot: bool, vk: int, bscope: bool) -> bool:
   """
-  pre: 0 <= p1 < 5 and 0 <= ma1 < 3 and 0 <= mb1 < 2 and 0 <= second < 3 and 0 <= ma2 < 3 and 0 <= mb2 < 2
+  pre: 0 <= p1 < 5 and 0 <= ma1 < 5 and 0 <= mb1 < 2 and 0 <= second < 3 and 0 <= ma2 < nma2 and 0 <= mb2 < 2
   pre: 0 <= vk < 9
   """
   p1 = rt.pick(p1, 5)
   s1 = rt.flag(s1)
-  ma1, mb1 = rt.pick(ma1, 3), rt.pick(mb1, 2)
+  ma1, mb1 = rt.pick(ma1, 5), rt.pick(mb1, 2)
   second = rt.pick(second, 3)           # 0: no second call, 1: same probe again, 2: the next probe
   if second:
     s2 = rt.flag(s2)
-    ma2, mb2 = rt.pick(ma2, 3), rt.pick(mb2, 2)
+    ma2, mb2 = rt.pick(ma2, nma2), rt.pick(mb2, 2)
   else:
     s2, ma2, mb2 = False, 0, 0
   broot, bscope = rt.flag(broot), rt.flag(bscope)
@@ -99,6 +103,12 @@ def c07_operative(p1: int, s1: bool, ma1: int, mb1: int, second: int, s2: bool, 
     if bscope:
       gin.parse_config('s/%s.%s = 6' % (FULL[probe1], first))
       bound['s'] = 'six'
+    # a REQUIRED marker needs an applicable binding (otherwise the call fails: that is C10)
+    for probe, scope, ma, mb in calls:
+      if ma in (3, 4):
+        applicable = probe == probe1 and ('' in bound or ('s' in bound and scope == 's'))
+        if not applicable:
+          rt.discard()
     # ---- run the calls --------------------------------------------------------------------------
     logs = []
     for c in calls:
@@ -130,7 +140,7 @@ def c07_operative(p1: int, s1: bool, ma1: int, mb1: int, second: int, s2: bool, 
             supplied['__object__'] = True
           else:
             supplied[pfirst] = VK_CANON[which]
-      if ma:
+      if ma in (1, 2):
         supplied.pop(pfirst, None)
         supplied.pop('__object__', None)
       if mb:
@@ -189,14 +199,16 @@ HARNESSES = {
     'c07_operative': dict(
         fn='c07_operative',
         anchors=['gin.config:gin_wrapper', 'gin.config:operative_config_str', 'gin.config:_config_str'],
-        smoke=[dict(p1=0, s1=True, ma1=0, mb1=1, second=1, s2=False, ma2=2, mb2=0, broot=True, vk=3, bscope=True),
-               dict(p1=1, s1=False, ma1=1, mb1=0, second=2, s2=True, ma2=0, mb2=0, broot=True, vk=4, bscope=False),
-               dict(p1=4, s1=True, ma1=0, mb1=0, second=0, s2=False, ma2=0, mb2=0, broot=True, vk=6, bscope=True)],
-        tiers={'quick': dict(split=dict(p1=list(range(5)), second=[0, 1, 2]), fixed=dict(mb2=0), budget_s=100),
-               'thorough': dict(split=dict(p1=list(range(5)), second=[0, 1, 2], vk=list(range(NVK))),
-                                budget_s=600)},
+        smoke=[dict(nma2=5, p1=0, s1=True, ma1=0, mb1=1, second=1, s2=False, ma2=2, mb2=0, broot=True, vk=3, bscope=True),
+               dict(nma2=5, p1=1, s1=False, ma1=1, mb1=0, second=2, s2=True, ma2=0, mb2=0, broot=True, vk=4, bscope=False),
+               dict(nma2=5, p1=4, s1=True, ma1=0, mb1=0, second=0, s2=False, ma2=0, mb2=0, broot=True, vk=6, bscope=True)],
+        tiers={'quick': dict(split=dict(p1=list(range(5)), second=[0, 1, 2], ma1=list(range(5))),
+                             fixed=dict(mb2=0, nma2=3), budget_s=100),
+               'thorough': dict(split=dict(p1=list(range(5)), second=[0, 1, 2], vk=list(range(NVK)),
+                                           ma1=list(range(5))), fixed=dict(nma2=5), budget_s=600)},
         bounds='1-2 calls over 5 probes (plain, allow-listed, deny-listed, reference consumer, registered method), each '
-               'in scope none/s with the first parameter omitted/positional/keyword and the second omitted/keyword; the '
+               'in scope none/s with the first parameter omitted / positional / keyword / gin.REQUIRED positionally / '
+               'gin.REQUIRED by keyword and the second omitted/keyword; the '
                'first parameter of the first probe bound at root with one of 9 value kinds (int, str, nested list, '
                '@src(), %macro, %CONSTANT, non-representable object, @src, dict) and/or in scope s'),
 }
